@@ -1,5 +1,5 @@
 /- Driver ops for C20. -/
-import Driver.Json
+import Driver.Loop
 
 open Lean Model
 
@@ -8,3 +8,5 @@ namespace Driver.C20
 def ops : List (String × Op) := []
 
 end Driver.C20
+
+def main : IO Unit := Driver.runLoop Driver.C20.ops
